@@ -3,6 +3,7 @@
 (* specification (Features) demands; the harness replays each line through the real rule pipeline.      *)
 EXTENDS Features, Inventory, TLC, Json, IOUtils
 CONSTANTS MaxDia,        \* 0: base segments only; 1: base + every applicable single diacritic
+          DiaStride,     \* base + diacritic targets are enumerated for the bases b with b % DiaStride = Seed % DiaStride
           AlphaStride    \* alpha pairs are enumerated on the bases b with b % AlphaStride = Seed % AlphaStride
 Seed == IF "VERIF_SEED" \in DOMAIN IOEnv THEN atoi(IOEnv.VERIF_SEED) ELSE 0
 
@@ -13,6 +14,7 @@ Target(bb, dd) == IF dd = 0 THEN Base[bb] ELSE ApplyPayload(Base[bb], Dia[dd].pa
 Applicable(bb, dd) == IF dd = 0 THEN TRUE ELSE (MatchMods(Base[bb], Dia[dd].pre) /\ Target(bb, dd) # Base[bb])
 
 Init == /\ b \in 1..Len(Base) /\ d \in 0..(IF MaxDia = 0 THEN 0 ELSE Len(Dia)) /\ Applicable(b, d)
+        /\ (IF d = 0 THEN TRUE ELSE b % DiaStride = Seed % DiaStride)
         /\ res = <<>>
         /\ \/ shape \in {"set", "match"} /\ kind = "f" /\ x \in 1..NFeat /\ pos \in BOOLEAN /\ g = 0 /\ inv = FALSE
            \/ shape \in {"set", "match"} /\ kind = "n" /\ x \in 1..5 /\ pos \in BOOLEAN /\ g = 0 /\ inv = FALSE
